@@ -214,7 +214,8 @@ def bound_rule(f, P, rep):
                     where = leak.where(bi)
     if got is None:
         raise AnalysisError('check_cluster_leak: scan range not found')
-    want = set(want) & GEOMETRY
+    want = c15.canon(set(want) & GEOMETRY)
+    got = c15.canon(got)
     ok = got == want
     rep.ob('C20.3', 'scan bound of check_cluster_leak', ok, 'uses %s; rt_index uses %s' % (sorted(got), sorted(want)))
     if not ok:
